@@ -286,7 +286,7 @@ def analysis(case):
         why = 'custom-regex'
     a['admissible'] = adm
     a['why_not'] = why
-    a['rest_lf'] = bool(adm and rest_name is not None and '\n' in texts.get(rest_name, ''))
+    a['rest_ctl'] = bool(adm and rest_name is not None and any(ord(c) < 32 or ord(c) == 127 for c in texts.get(rest_name, '')))
     a['needs_quoting'] = bool(intended is not None and any(c not in UNRESERVED for n in names for c in texts.get(n, '')))
     return a
 
@@ -514,7 +514,7 @@ def decode_model(o):
     return {'compile': 'ok', 'template': txt(o['template']), 'gen': dec_res(o['gen']), 'closed': dec_res(o['closed']),
             'path': dec_res(o['path']), 'url': dec_res(o['url']), 'path_nocache': dec_res(o['path_nocache']), 'pathinfo': o['pathinfo'], 'decoded': txt(o['decoded']),
             'match': dec_env(o['match']), 'expect': dec_env(o['expect']), 'intended': txt(o['intended']),
-            'admissible': o['admissible'], 'restnolf': o['restnolf']}
+            'admissible': o['admissible']}
 
 
 def norm_err(r):
@@ -569,7 +569,7 @@ def compare(case, got, mo, an):
         diffs.append(('admissible', an['admissible'], mo['admissible']))
     if an['intended'] is not None and (mo['intended'] != an['intended'] or mo['expect'] != an['expect']):
         diffs.append(('expect', [an['intended'], an['expect']], [mo['intended'], mo['expect']]))
-    if mo['admissible'] and mo['restnolf'] and not case['elems'] and mo['match'] != mo['expect']:
+    if mo['admissible'] and not case['elems'] and mo['match'] != mo['expect']:
         diffs.append(('model-roundtrip', mo['match'], mo['expect']))
     return diffs
 
@@ -667,11 +667,7 @@ def oracle(case, got, an):
 
 
 def classify(case, an, bad):
-    """known findings: narrow predicates of the case"""
-    if bad and all(c == 'roundtrip' for c, _ in bad) and an['rest_lf']:
-        d = bad[0][1]
-        if isinstance(d, list) and d[0] is None:
-            return 'F-C06a'
+    """known findings: none is recorded for C06 any more (F-C06a repaired by fc43a19, F-C06b by 9c714c3)"""
     return None
 
 
@@ -759,6 +755,14 @@ def gen_text(rng, maxlen=6, forbid='', allow_empty=False, p_lf=0.02):
     return t
 
 
+CTL = ['\n', '\n', '\n', '\r', '\r\n', '\t', '\x00', '\x0b', '\x0c', '\x1f', '\x7f', '\x85', '\u2028']
+
+
+def with_ctl(rng, text):
+    k = rng.randint(0, len(text))
+    return text[:k] + rng.choice(CTL) + text[k:]
+
+
 def gen_atom(rng, text, p_other=0.2):
     r = rng.random()
     if r < 1 - p_other - 0.15:
@@ -807,9 +811,12 @@ def gen_kw(rng, intent, pool):
             forbid = ''
             if not wild and i >= 2 and intent[i - 1][0] == 'lit' and '/' not in intent[i - 1][1]:
                 forbid = intent[i - 1][1]
+            ctl = rng.random() < 0.3          # line feed / CR / other control characters in the remainder, often
             r = rng.random()
             if r < 0.4:
                 segs = [gen_text(rng, 4, forbid=forbid + '/') for _ in range(rng.choice([0, 1, 2, 2, 3]))]
+                if ctl:
+                    segs.insert(rng.randint(0, len(segs)), with_ctl(rng, gen_text(rng, 3, forbid=forbid + '/', allow_empty=True)))
                 deco = rng.random()
                 if deco < 0.3:
                     segs.insert(rng.randint(0, len(segs)), rng.choice(['', '.', '..']))
@@ -829,6 +836,8 @@ def gen_kw(rng, intent, pool):
                         s = rng.choice(['', '.', '..', 'a/b', '/', s + '/x'])
                     if s in ('.', '..') and not wild:
                         s = 'd'
+                    if ctl and rng.random() < 0.6:
+                        s = with_ctl(rng, s)
                     atoms.append(gen_atom(rng, s))
                     pool.append(s)
                 if rng.random() < 0.01 and atoms:
@@ -994,7 +1003,7 @@ def new_dist():
     return {'tokens': {}, 'placeholders_per_pattern': {}, 'rest': 0, 'custom_regex': 0, 'value_types': {}, 'rest_forms': {},
             'elements': {}, 'script': {}, 'outcomes': {}, 'admissible': 0, 'not_admissible': {}, 'roundtrips_performed': 0,
             'needs_quoting': 0, 'non_ascii_value': 0, 'reserved_in_value': 0, 'missing_value': 0, 'unquotable': 0,
-            'outside_model': 0, 'config_error': 0, 'known_F-C06a': 0, 'with_history': 0, 'history_equal_other_type': 0, 'excluded_points_replayed': 0, 'query': 0, 'anchor': 0}
+            'outside_model': 0, 'config_error': 0, 'rest_with_control_char': 0, 'with_history': 0, 'history_equal_other_type': 0, 'excluded_points_replayed': 0, 'query': 0, 'anchor': 0}
 
 
 def note_dist(dist, case, info):
@@ -1048,6 +1057,8 @@ def note_dist(dist, case, info):
         dist['roundtrips_performed'] += 1
     if an['needs_quoting']:
         dist['needs_quoting'] += 1
+    if an.get('rest_ctl'):
+        dist['rest_with_control_char'] += 1
 
 
 def nontrivial(case, info):
